@@ -12,7 +12,7 @@
    is a list here; a `Vec` used as a stack (`push` / `pop`) is a list whose HEAD is the last pushed
    element.  `dst_vertex_id(&edge)?` / `src_vertex_id(&edge)?` keep their error path
    (EdgeNotFound).  The recursion of depth_first_search runs on explicit fuel = recursion depth;
-   Proofs/SccKosaraju.v shows that any fuel > n_vertices is enough. *)
+   Proofs/SccDfs.v (dfs_fuel) and Proofs/SccKosaraju.v show that any fuel > n_vertices is enough. *)
 From Coq Require Import List Arith Bool String.
 From RC Require Import Base.Res.
 Import ListNotations.
@@ -104,6 +104,11 @@ Definition partition (n : nat) (comps : list (list nat)) : Prop :=
   NoDup (List.concat comps) /\ (forall v, In v (List.concat comps) <-> v < n) /\ ~ In [] comps.
 Definition same_comp (comps : list (list nat)) (u v : nat) : Prop :=
   exists c, In c comps /\ In u c /\ In v c.
+(* C18: comps partitions the vertices and its blocks are exactly the mutual-reachability classes *)
+Definition scc_classes (g : graph) (comps : list (list nat)) : Prop :=
+  partition (nv g) comps
+  /\ (forall u v, same_comp comps u v -> mutual g u v)
+  /\ (forall u v, u < nv g -> mutual g u v -> same_comp comps u v).
 
 (* ------------------------------------------------------------------------------------------ *)
 (* Verified checker, run on the IMPLEMENTATION's output: decides "comps is a partition of the
